@@ -12,6 +12,7 @@ Decides:
 Not decided: geometric adequacy of firstBlocker / the sweep / the orthogonal scan; nudging keeping routes outside shapes.
 """
 import json
+import re
 import os
 
 from ..astq import (strip, strip_casts, calls, call_args, call_object, writes, written_field, norm, literal_value, src,
@@ -702,6 +703,59 @@ def rule_sweep_set_total(chk, prog):
         (r.bad if bad else r.ok)(name, fn.where(), bad or "")
 
 
+def rule_path_edges_registered(chk, prog):
+    r = chk.rule("PATH-EDGES-REGISTERED", "ConnRef::generatePath registers the connector's reroute flag with EVERY visibility edge of the path it has "
+                 "just found (polyline routing with invisibility edges): the call EdgeInf::addConn sits in a loop over all consecutive vertex "
+                 "pairs under no condition other than that routing mode and the edge existing -- an edge that is not told about the connector "
+                 "cannot flag it when a shape is later added or moved across that stretch, and the connector keeps a route through the shape", floor=1)
+    fn = prog.fn("Avoid::ConnRef::generatePath")
+    g = CFG(fn)
+    cs = [c for c in calls(fn) if c.get("cname") == "Avoid::EdgeInf::addConn"]
+    r.count()
+    if len(cs) != 1:
+        raise AnalysisBroken("generatePath: expected one EdgeInf::addConn call, found %d" % len(cs))
+    allowed = {"(i < vertices.size())", "(m_type == Avoid::ConnType_PolyLine)", "edge", "m_router.InvisibilityGrph"}
+    ats = set(atoms(path_condition(fn, cs[0], inline=False)))
+    extra = sorted(ats - allowed)
+    loops = [a for a in fn.ancestors(cs[0]) if a.get("k") == "ForStmt"]
+    bad = None
+    if extra:
+        bad = "the reroute flag is registered with a path edge only under the further condition(s) %s" % extra[:2]
+    elif not loops or "1" not in norm(loops[0].get("init")) or "vertices.size()" not in norm(loops[0].get("cond")):
+        bad = "the registration loop does not run over all consecutive vertex pairs of the path"
+    elif norm(call_args(cs[0])[0]) != "m_reroute_flag_ptr":
+        bad = "addConn is given `%s`, not the connector's reroute flag" % norm(call_args(cs[0])[0])
+    (r.bad if bad else r.ok)("generatePath", fn.loc(cs[0]), bad or "")
+
+
+def rule_outside_visibility(chk, prog):
+    r = chk.rule("OUTSIDE-VISIBILITY", "fixConnectionPointVisibilityOnOutsideOfVisibilityGraph: every connector end point / pin on the FIRST and on the "
+                 "LAST position of a sweep gets the added direction (visDirections |= addedVisibility) whatever directions it already has -- "
+                 "both loops, no further condition: an outermost end point that may only leave outwards has no orthogonal visibility "
+                 "otherwise and its connector falls back to a straight line through the shapes", floor=2)
+    fn = prog.fn("Avoid::fixConnectionPointVisibilityOnOutsideOfVisibilityGraph")
+    sts = [(lhs, node, op) for lhs, node, op in writes(fn) if written_field(lhs)[0] == "Avoid::VertInf::visDirections"]
+    seen = {"first": False, "last": False}
+    for lhs, node, op in sts:
+        which = "last" if "revIndex" in norm(lhs, single_assignment_locals(fn)) or "totalEvents - 1" in norm(lhs, single_assignment_locals(fn)) else "first"
+        r.count()
+        sal = single_assignment_locals(fn)
+        obj = norm(lhs, sal).rsplit(".visDirections", 1)[0]
+        ats = [a for a in atoms(path_condition(fn, node, inline=True)) if a not in ("(index < totalEvents)", "(totalEvents > 0)")]
+        # (a null test of the very vertex that is written is part of the store, not a further condition)
+        extra = [a for a in ats if a != obj and not re.fullmatch(r"events\[.*\]\.v\.c", a)]
+        bad = None
+        if extra:
+            bad = "the direction is added only under the further condition(s) %s" % extra[:2]
+        elif op != "|=" or norm(node["ch"][1]) != fn.params[2]["name"]:
+            bad = "the store is `%s %s`, not `|= %s`" % (op, norm(node["ch"][1]), fn.params[2]["name"])
+        else:
+            seen[which] = True
+        (r.bad if bad else r.ok)("%s sweep position" % which, fn.loc(node), bad or "")
+    if not all(seen.values()) and len(sts) < 2:
+        raise AnalysisBroken("fixConnectionPointVisibilityOnOutsideOfVisibilityGraph: the two stores were not recognised")
+
+
 def run(chk):
     prog = chk.load()
     chk.guard(rule_callers, chk, prog)
@@ -713,6 +767,8 @@ def run(chk):
     chk.guard(rule_contains, chk, prog)
     chk.guard(rule_sweep_border, chk, prog)
     chk.guard(rule_sweep_set_total, chk, prog)
+    chk.guard(rule_path_edges_registered, chk, prog)
+    chk.guard(rule_outside_visibility, chk, prog)
     from .c16 import rule_shape_blocking
     chk.guard(rule_shape_blocking, chk, prog, ("square",))      # which segments a convex obstacle blocks
     chk.guard(rule_free_side_lines, chk, prog)
